@@ -534,7 +534,7 @@ fn rand_scenario(rng: &mut StdRng, sc: usize, out: Box<dyn std::io::Write>, kv: 
     let nscripts = sim.chain.scripts.len();
     let rand_list = |rng: &mut StdRng, maxn: u64, allow_empty: bool| -> Vec<(usize, bool, u64)> {
         let mut list = Vec::new();
-        let k = if allow_empty && rng.gen_bool(0.15) { 0 } else { rng.gen_range(1..=3) };
+        let k = if allow_empty && rng.gen_bool(0.25) { 0 } else { rng.gen_range(1..=3) };
         for _ in 0..k {
             list.push((rng.gen_range(0..nscripts), rng.gen_bool(0.25), rng.gen_range(0..=maxn)));
         }
@@ -672,12 +672,24 @@ fn rand_scenario(rng: &mut StdRng, sc: usize, out: Box<dyn std::io::Write>, kv: 
             99 => {
                 env.restart(&mut sim);
                 blocks_q.clear();
+                if rng.gen_bool(0.5) {
+                    // a batch right after the restart, before the tick recovers the matched blocks of the store
+                    env.connect(&mut sim, i);
+                    env.send_last_state(&mut sim, i);
+                    while env.answer_proof(&mut sim, i) {}
+                    env.unsolicited_filters(&mut sim, i);
+                }
             }
             x if x < 100 + w_scripts => {
                 let cmd = ["all", "partial", "delete"][rng.gen_range(0..3)];
                 let maxn = nleaf;
                 let list = rand_list(rng, maxn, true);
                 env.set_scripts(&mut sim, cmd, &list);
+                if env.peers[i].connected && rng.gen_bool(0.4) {
+                    // the next batch arrives before any tick (set_scripts empties the in-memory map of matched
+                    // blocks; with an empty list the records in the store stay)
+                    env.unsolicited_filters(&mut sim, i);
+                }
             }
             _ => {
                 match rng.gen_range(0..4) {
@@ -926,6 +938,23 @@ fn crash_history(seed: u64, sc: usize, k: Option<usize>, out: Box<dyn std::io::W
             phase = 1;
         }
         if phase == 1 && round == 3 {
+            // leave matched blocks pending (a filter batch accepted, nothing proved or downloaded yet): set_scripts
+            // then has a record to discard and a filter position to rewind
+            for step in 0..4 {
+                if sim.dead || sim.crashed {
+                    break;
+                }
+                match step {
+                    0 | 2 => env.filter_tick(&mut sim, 0, true),
+                    _ => {
+                        env.answer_filter(&mut sim, 0, interval);
+                    }
+                }
+            }
+            if sim.crashed { sim.crashed = false; env.after_crash(); }
+            if sim.dead {
+                break;
+            }
             env.set_scripts(&mut sim, "partial", &list2);
             if sim.crashed { sim.crashed = false; env.after_crash(); if retry { continue; } }
             phase = 2;
